@@ -3,6 +3,7 @@
 From Bita Require Import Model.Base Gen.Generated Model.Proto Model.Archive.
 From Bita Require Import Model.ChunkIndex Model.CloneOutput Model.CloneSpec Model.CloneArchive.
 From Bita Require Import Proofs.ArchiveSafe Proofs.CloneCorrect Proofs.TamperSafe.
+From Bita Require Import Model.HttpReader Model.CloneHttpModel Proofs.CloneHttpSafe.
 
 (* acceptance implies: magic is one of the two, and the 64 bytes after the offset field are the hash of
    everything before them -- for ARBITRARY bytes *)
@@ -59,9 +60,25 @@ Proof. intros [[|] [|]]; cbn; intros Hr; try discriminate Hr; split; reflexivity
 Theorem C04_pin_checked_before_output : pin_checked_before_output = true.
 Proof. reflexivity. Qed.
 
+(* "any wrong or incomplete data returned by a server": the WHOLE clone over http (Model/CloneHttpModel.v: try_init
+   through read_at, chunk stream through read_chunks, decompress + verify + feed, resize) against a server that
+   follows ANY script -- complete answers, refused connections, bodies cut or ending early, extra bytes, wrong
+   bytes, in any order and number, header requests included. If the clone reports success, the output is the
+   source. Hypothesis: whatever passes decompression + hash comparison for descriptor d is chunk d (second
+   pre-image resistance, for whatever data this run is offered). *)
+Theorem C04_http_clone_any_server :
+  forall (H : list N -> list N) (decomp : N -> list N -> option (list N)) (D : N -> list N)
+         f retries script a sc lg src out,
+    http_open H f retries script = (Ok a, sc, lg) ->
+    describes D (build_source_index a) src -> desc_keys_ok a -> a_total a = lenN src ->
+    (forall d x y, In d (a_descs a) -> unpack H decomp a d x = Ok y -> y = D (dkey a d)) ->
+    fst (http_clone H decomp f retries script) = Ok out -> out = src.
+Proof. exact http_clone_tamper_safe. Qed.
+
 Print Assumptions C04_payload_tamper_safe.
 Print Assumptions C04_header_accept_implies.
 Print Assumptions C04_header_only.
 Print Assumptions C04_pinned_header_identity.
 Print Assumptions C04_pin_proceeds_only_if_equal.
 Print Assumptions C04_pin_checked_before_output.
+Print Assumptions C04_http_clone_any_server.
